@@ -1164,7 +1164,12 @@ def hyp_shard(shard, nshards, seed, tier):
 def run(tier, seed, stats):
     ex = core.parallel(dfs_shard, 16, seed, tier)
     stats.merge(ex)
+    # exhaustive for the stated preemption bounds unless a run hit the step bound; sub-trees below the entry into the
+    # construct of an open known finding are pruned (counted in excluded_by_construction) while that finding is open
     stats.extra['exhaustive'] = not ex.inconclusive.get('step-bound')
+    if ex.excluded:
+        stats.extra['exhaustive_note'] = ('schedules are cut where they enter the construct of an open known finding: '
+                                          '%d of %d DFS runs' % (sum(ex.excluded.values()), ex.extra.get('dfs_schedules', 0)))
     stats.merge(core.parallel(hyp_shard, 16, seed, tier))
 
 
